@@ -294,7 +294,7 @@ pub fn iface_name(rng: &mut Rng) -> String {
     n
 }
 fn comment(rng: &mut Rng, safe: bool) -> String {
-    let pool: &[&str] = if safe { &["hello", "a b", "x y  z", "Returns the thing", "tr  ", "é ü", "TODO", "#nested", "1.5"] } else { &["see (x)", "a: b", "x) y", "(", ":)", "k: v, (w)"] };
+    let pool: &[&str] = if safe { &["hello", "a b", "x y  z", "Returns the thing", "tr  ", "é ü", "TODO", "#nested", "1.5", "", ""] } else { &["see (x)", "a: b", "x) y", "(", ":)", "k: v, (w)"] };
     rng.pick(pool).to_string()
 }
 fn comments(rng: &mut Rng, p: usize, safe: bool) -> Vec<String> {
